@@ -56,7 +56,7 @@ LAYOUTS = {
         # the config file itself is also reached by a glob entry, with an anchored pattern for a second version line in it
         files={"pkg/*.txt": ["v={version}"], "*.toml": ['^release = "{version}"']},
         cfg_head='release = "2021.6.0"\n\n', implicit_cfg_entry=True,
-        content={"pkg/a.txt": "v=2021.6.0\n", "pkg/b.txt": "x\r\nv=2021.6.0\r\n"},
+        content={"pkg/a.txt": "v=2021.6.0\n", "pkg/b.txt": "x\r\nv=2021.6.0\r\n", "pkg/.c.txt": "hidden\nv=2021.6.0\n"},
         u=[], u2=["--pin-date"], u3=["--date", "2030-01-01"], fail=["--set-version", "2000.1.0"],
     ),
 }
@@ -146,7 +146,7 @@ def occurrences(layout):
         out.append(("docs/index.md", "version", _find(r"release (.*) of", tree["docs/index.md"].decode("utf-8", "replace"))))
         out.append(("docs/series.md", "major.minor", _find(r"the (.*) series", tree["docs/series.md"].decode("utf-8", "replace"))))
     else:
-        for f in ("pkg/a.txt", "pkg/b.txt"):
+        for f in ("pkg/a.txt", "pkg/b.txt", "pkg/.c.txt"):
             out.append((f, "version", _find(r"v=([^\r\n]*)", tree[f].decode("utf-8", "replace"))))
         out.append(("bumpver.toml", "version", _find(r'^release = "(.*)"', tree["bumpver.toml"].decode("utf-8", "replace"), flags=re.M)))
     cfg = _find(r'current_version = "(.*)"', tree["bumpver.toml"].decode("utf-8", "replace"))
